@@ -135,14 +135,12 @@ def check_bed(res, kind, exons, strand, cds, window, chrom_mode, menu, N, order=
         return
     is_chunk = isinstance(window, tuple)  # (minus-strand chunks reach this point in chromosome mode only)
     if not chrom_mode and not is_chunk:
-        # documented: NoSuchAncestorException when there is no sequence_chunk ancestor ... (not enforced for BED
-        # by the docstring of every class; accept a documented exception or chromosome coordinates)
+        # ("Raises: NoSuchAncestorException: If chromosome_relative_coordinates is False but there is no sequence_chunk ancestor
+        # type" - docstring of both to_bed12 methods; the export used to answer with chromosome coordinates)
         res.note("bed", "chunk-mode-without-chunk")
-        if o[0] == "exc":
-            if not lib.is_documented_exc(o[2]):
-                res.deviation("to_bed12", case, o[1], "documented exception", sig="bed-internal-error")
-            return
-        off = 0
+        if o[0] != "exc" or type(o[2]).__name__ != "NoSuchAncestorException":
+            res.deviation("to_bed12", case, o[1], "NoSuchAncestorException", sig="bed-chunk-mode-without-chunk-answered")
+        return
     else:
         off = window[0] if (is_chunk and not chrom_mode) else 0
     if o[0] != "ok":
